@@ -52,6 +52,11 @@ def cases(tier, seed):
         for c in range(nchunks):
             cs.append({"kind": "faults", "tool": tool, "seed": seed * 100 + 5, "chunk": [c, nchunks],
                        "cap": 400 if tier == "quick" else 4000})
+    # the same through the console entry points (argument parsing, exit status): a sample of the points
+    for tool in ["colander", "combine", "chef", "mandoline_array", "mandoline_plotfile", "chk2plt"]:
+        for c in ((seed % 6,) if tier == "quick" else range(6)):
+            cs.append({"kind": "faults", "tool": tool, "seed": seed * 100 + 5, "chunk": [c, 6], "form": "cli",
+                       "cap": 150 if tier == "quick" else 1500})
     for tool in ["colander", "combine", "chef", "mandoline_array", "whip", "pestle", "chk2plt"]:
         cs.append({"kind": "missing", "tool": tool, "seed": seed * 100 + 9})
     # tools that need every byte of every FAB (readers of single components never touch the cut tail,
@@ -404,8 +409,12 @@ def run_faults(case, work, rec):
     outarg, out_abs = (None, None) if tool == "marinate" else explicit_out(tool, sb, None)
     outs = [out_abs, out_abs + ".npz", out_abs + ".npy"] if out_abs else [sb.plt + ".pkl"]
 
+    form = case.get("form", "api")
+
     def call():
-        invoke(tool, "api", sb, "abs", outarg)
+        invoke(tool, form, sb, "abs", outarg)
+    if form == "cli":
+        rec.count("fault_runs_through_entry_points")
     # counting run (fault-free)
     pools.CTL.reset(mode="inproc", default="identity")
     faults.install()
@@ -432,25 +441,35 @@ def run_faults(case, work, rec):
         keep = [p for p in points if kinds[p - 1] != "write"]
         points = sorted(set(keep + rng.sample(points, case["cap"] - min(len(keep), case["cap"]))))
     snaps0 = {p: fsaudit.snapshot(p) for p in sb.inputs}
-    for k in points:
+    # every point with an errno-carrying error; with few points (or every third point otherwise) also with an
+    # OSError built from a message only (numpy's short-write error carries no errno)
+    runs = [(k, False) for k in points] + [(k, True) for k in (points if len(points) <= 12 else points[::3])]
+    for k, plain in runs:
         pools.CTL.reset(mode="inproc", default="identity")
         faults.install()
         faults.S.reset(fail_at=k)
+        faults.S.plain = plain
         exc = None
         try:
             call()
         except (Exception, SystemExit) as e:
-            exc = e
+            # an entry point that ends with exit status 0 has returned normally as far as its caller can tell
+            if not (isinstance(e, SystemExit) and e.code in (0, None)):
+                exc = e
+            else:
+                rec.count("entry_point_exit_status_zero_under_fault")
         finally:
             faults.uninstall()
         inj = faults.S.injected
-        key = (tool, "fault", k)
+        key = (tool, form, "fault", k, "plain" if plain else "errno")
+        if plain:
+            rec.count("fault_points_injected_without_errno")
         if inj is None:
             rec.undecided("fault point not reached on replay (non-deterministic invocation)")
         else:
             rec.count("fault_points_injected")
             rec.seen("fault_kinds", f"{tool}:{inj[0]}")
-            descr = f"{tool}: fault #{k}/{npoints} ({inj[0]} on {os.path.relpath(inj[1], sb.root) if inj[1].startswith(sb.root) else inj[1]})"
+            descr = f"{tool}{' entry point' if form == 'cli' else ''}: fault #{k}/{npoints}{' (OSError without errno)' if plain else ''} ({inj[0]} on {os.path.relpath(inj[1], sb.root) if inj[1].startswith(sb.root) else inj[1]})"
             probs = []
             for p, s0 in snaps0.items():
                 d = fsaudit.diff_snap(s0, fsaudit.snapshot(p))
